@@ -197,12 +197,22 @@ class Driver:
             tasks.append(task)
 
         rec = Recorder()
-        stage = tasks
-        if stage:
-            self.component('tsi', rec).work(stage)
+        escaped = []
+
+        def work(kind, bulk):
+            """BaseComponent.work_cb: an exception escaping `work` fails the whole bulk"""
+            if not bulk:
+                return
+            comp = self.component(kind, rec)
+            try:
+                comp.work(bulk)
+            except Exception as e:
+                escaped.append('%s: %s' % (kind, type(e).__name__))
+                comp.advance(bulk, rps.FAILED, publish=True, push=False)
+
+        work('tsi', tasks)
         stage, rec.pushed = rec.pushed, []
-        if stage:
-            self.component('asi', rec).work(stage)
+        work('asi', stage)
         stage, rec.pushed = rec.pushed, []
         # "execution": the task writes its files, the executor sets the outcome
         for task in stage:
@@ -212,11 +222,9 @@ class Driver:
                 self.write(task['uid'], rel, cid)
             task['target_state'] = t['outcome']
             task['state'] = rps.AGENT_STAGING_OUTPUT_PENDING
-        if stage:
-            self.component('aso', rec).work(stage)
+        work('aso', stage)
         stage, rec.pushed = rec.pushed, []
-        if stage:
-            self.component('tso', rec).work(stage)
+        work('tso', stage)
 
         for o in tobs:
             if 'states' not in o:
@@ -225,5 +233,5 @@ class Driver:
             o = tobs[int(task['uid'][1:])]
             o['in_after'] = self.sds_sym(task['description']['input_staging'])
         os.chdir(self.base)
-        obs = {'tasks': [{k: v for k, v in o.items() if k != 'uid'} for o in tobs], 'tree0': tree0, 'tree': self.tree()}
+        obs = {'tasks': [{k: v for k, v in o.items() if k != 'uid'} for o in tobs], 'tree0': tree0, 'tree': self.tree(), 'escaped': escaped}
         return obs
